@@ -187,11 +187,33 @@ def _constant_like(e: ast.AST) -> bool:
     return False
 
 
+def _split_parallel(stmts):
+    """`a, b = x, y` -> `a = x; b = y` when no target is read on the right-hand side (then the order does not matter)"""
+    out = []
+    for st in stmts:
+        if isinstance(st, ast.Assign) and len(st.targets) == 1 and isinstance(st.targets[0], (ast.Tuple, ast.List)) \
+                and isinstance(st.value, (ast.Tuple, ast.List)) and len(st.value.elts) == len(st.targets[0].elts) \
+                and all(isinstance(t, ast.Name) for t in st.targets[0].elts) \
+                and not any(isinstance(e, ast.Starred) for e in st.value.elts):
+            tnames = {t.id for t in st.targets[0].elts}
+            reads = {x.id for e in st.value.elts for x in ast.walk(e) if isinstance(x, ast.Name)}
+            if not (tnames & reads) and len(tnames) == len(st.targets[0].elts):
+                for t, e in zip(st.targets[0].elts, st.value.elts):
+                    a = ast.Assign([ast.Name(t.id, ast.Store())], e)
+                    ast.copy_location(a, st)
+                    ast.fix_missing_locations(a)
+                    out.append(a)
+                continue
+        out.append(st)
+    return out
+
+
 class Canon(ast.NodeTransformer):
     """Shape-only canonicalisation of the view, so that rules need not enumerate mirror images:
       * `if not c: A else: B`            ->  `if c: B else: A`
       * `<constant> op x`                ->  `x op' <constant>`   (single comparisons; op' the mirrored operator)
       * `t = e; return t` (t used once)  ->  `return e`
+      * `a, b = x, y` (no target read on the right)  ->  `a = x; b = y`
     """
     MIRROR = {ast.Lt: ast.Gt, ast.Gt: ast.Lt, ast.LtE: ast.GtE, ast.GtE: ast.LtE, ast.Eq: ast.Eq, ast.NotEq: ast.NotEq}
 
@@ -231,7 +253,7 @@ class Canon(ast.NodeTransformer):
         self._uses = uses
 
         def rec(stmts):
-            stmts = self._fold_returns(stmts)
+            stmts = self._fold_returns(_split_parallel(stmts))
             for st in stmts:
                 for fld in ("body", "orelse", "finalbody"):
                     sub = getattr(st, fld, None)
